@@ -143,7 +143,9 @@ def line_wrap_to_width(
         # Apply tag newline handling first, then hard break handling
         # Order matters: tag handling should operate on original newlines
         # before hard break handling normalizes explicit breaks
-        enhanced = add_tag_newline_handling(line_wrapper)
+        enhanced = add_tag_newline_handling(
+            line_wrapper, lambda text: markdown_escape_first_word(text, paragraph_start=False)
+        )
         return _add_markdown_hard_break_handling(enhanced)
     else:
         return line_wrapper
@@ -222,7 +224,9 @@ def line_wrap_by_sentence(
 
     if is_markdown:
         # Apply tag newline handling first, then hard break handling
-        enhanced = add_tag_newline_handling(line_wrapper)
+        enhanced = add_tag_newline_handling(
+            line_wrapper, lambda text: markdown_escape_first_word(text, paragraph_start=False)
+        )
         return _add_markdown_hard_break_handling(enhanced)
     else:
         return line_wrapper
